@@ -14,7 +14,7 @@ class RunTimeout(BaseException):
     pass
 
 def _alarm(signum, frame):
-    raise RunTimeout("wall-clock guard fired")
+    raise RunTimeout("run guard fired (%s)" % ('cpu seconds' if signum == signal.SIGVTALRM else 'wall clock'))
 
 def run_seed(batch_seed, i):
     h = hashlib.sha256(("%d/%d" % (batch_seed, i)).encode()).digest()
@@ -27,8 +27,12 @@ def load_prop(pid):
 
 def guarded_run(mod, plan, wall=60):
     """run a plan; returns summary dict (never raises)"""
+    # two guards: CPU seconds of this process (robust when the machine is loaded) and, four times as generous, wall-clock
+    # (for a run that blocks without burning CPU)
     old = signal.signal(signal.SIGALRM, _alarm)
-    signal.alarm(wall)
+    oldv = signal.signal(signal.SIGVTALRM, _alarm)
+    signal.alarm(int(wall * 4))
+    signal.setitimer(signal.ITIMER_VIRTUAL, float(wall))
     t0 = REAL_MONO()
     try:
         res = mod.run_plan(plan)
@@ -44,7 +48,9 @@ def guarded_run(mod, plan, wall=60):
                'violations': []}
     finally:
         signal.alarm(0)
+        signal.setitimer(signal.ITIMER_VIRTUAL, 0)
         signal.signal(signal.SIGALRM, old)
+        signal.signal(signal.SIGVTALRM, oldv)
         from . import env
         env.end()
     out['wall'] = REAL_MONO() - t0
@@ -249,7 +255,7 @@ def main(argv=None):
             if REAL_MONO() - t0 > cap and not stop:
                 stop = True
                 pending.clear()
-            if REAL_MONO() - t0 > cap + 2 * per_run_wall + 30:
+            if REAL_MONO() - t0 > cap + 8 * per_run_wall + 30:
                 errors.append('batch exceeded its wall-clock cap by more than two run guards: workers killed')
                 _kill_workers()
                 break
